@@ -30,6 +30,7 @@
 //     S f v      scaleBoxConstraints(f, v)  (equality-constrained kind over CSVMProblem only: the other classes have no
 //                such member / it does not compile)        A p   activateVariable(pos(p))
 //     X p q      flipCoordinates(pos(p), pos(q))           U     unshrink()            T b   setShrinking(b)
+//     Z          (only as m_1, not a mutator) the first solve is skipped: the mutators meet a freshly constructed object
 //   events:  E setlin a v | E setinit v_0..v_{n-1} | E scale f v cp cn | E activate a | E flip a b | E unshrink | E setshr b
 #include <cstdio>
 #include <cstdlib>
@@ -205,12 +206,15 @@ void solveWith(ProblemType& problem, Cfg const& c) {
 	Recorder<ProblemType> rec(problem, c.tag == "LRUN");
 	std::fprintf(OUT, "S0"); rec.snapshot();
 	QpSolver<Recorder<ProblemType>, Sel> solver(rec);
-	solver.solve(stop, &prop);
-	std::fprintf(OUT, "F"); rec.snapshot();
-	std::fprintf(OUT, "END %d %llu %a %a\n", (int)prop.type, prop.iterations, prop.value, prop.accuracy);
+	bool skipFirst = c.tag == "HIST" && !c.muts.empty() && c.muts[0].code == 'Z';
+	if (!skipFirst) {
+		solver.solve(stop, &prop);
+		std::fprintf(OUT, "F"); rec.snapshot();
+		std::fprintf(OUT, "END %d %llu %a %a\n", (int)prop.type, prop.iterations, prop.value, prop.accuracy);
+	}
 	if (c.tag != "HIST") return;
 	std::fprintf(OUT, "MUT\n");
-	for (std::size_t k = 0; k < c.muts.size(); k++) applyMut(problem, rec, c.muts[k]);
+	for (std::size_t k = skipFirst ? 1 : 0; k < c.muts.size(); k++) applyMut(problem, rec, c.muts[k]);
 	std::fprintf(OUT, "SOLVE2\n");
 	solver.solve(stop, &prop);
 	std::fprintf(OUT, "F"); rec.snapshot();
